@@ -152,6 +152,7 @@ theorem step_wf {s s' : FS} {e : Sys} (h : WF s) (hs : step s e = .ok s') : WF s
         · subst hqa; simp at hq
         · rw [upd_ne _ _ hqa] at hq; exact h.names_lt q j hq
       · exact h.fds_lt
+  | fsyncDir => simp only [step] at hs; cases hs; exact h
 
 /-- Frame: a successful syscall that does not name `dest` leaves it settled. -/
 theorem step_safe {s s' : FS} {e : Sys} {dest : Path} {v : Option Content} (hwf : WF s)
@@ -263,6 +264,7 @@ theorem step_safe {s s' : FS} {e : Sys} {dest : Path} {v : Option Content} (hwf 
         obtain ⟨i, hn, rest⟩ := h
         refine ⟨i, ?_, rest⟩
         simp only; rw [upd_ne _ _ hna]; exact hn
+  | fsyncDir => simp only [step] at hs; cases hs; exact h
 
 /-! ## Runs -/
 
@@ -360,11 +362,6 @@ theorem abort_safe {pr : Probe} {tmp dest : Path} (hn : TempNames pr tmp dest) (
 def TmpOpen (s : FS) (tmp : Path) (fd : Nat) (c : Content) : Prop :=
   ∃ i, s.names tmp = some i ∧ s.fds fd = some (i, c.length) ∧ s.cache i = c ∧
     (∀ fd' off, s.fds fd' = some (i, off) → fd' = fd) ∧ (c ≠ [] → s.dirty i = true)
-
-/-- The temporary file holds `c`, synced, and is closed. -/
-def TmpReady (s : FS) (tmp : Path) (c : Content) : Prop :=
-  ∃ i, s.names tmp = some i ∧ s.cache i = c ∧ s.disk i = c ∧ s.dirty i = false ∧
-    ∀ fd off, s.fds fd ≠ some (i, off)
 
 theorem creat_open {s s' : FS} {tmp : Path} {fd : Nat} (hwf : WF s)
     (hs : step s (.creat tmp fd) = .ok s') : TmpOpen s' tmp fd [] := by
